@@ -16,7 +16,7 @@ ATTRS = [None, "rel", "abs"]
 def space(tier, seed):
     allc = []
     for f, sr, ss, fl, inv, at, nocd, script, reach in itertools.product(
-            FILES, SETTINGS, SETTINGS, FLAGS, INVS, ATTRS, [False, True], [False, True], ["direct", "dep", "alias"]):
+            FILES, SETTINGS, SETTINGS, FLAGS, INVS, ATTRS, [False, True], [False, True, "attr"], ["direct", "dep", "alias"]):
         if inv == "elsewhere" and fl == "none":
             continue  # no justfile would be found
         if nocd and at is not None:
@@ -55,17 +55,21 @@ def layout(d, c):
     elif c["attr"] == "abs":
         attrs += "[working-directory('%s')]\n" % os.path.join(d, "abs2")
     line = "[T] {{invocation_directory()}}|{{justfile_directory()}}|{{source_directory()}}|{{`[Bint]`}}"
-    if c["script"]:
+    if c["script"] == "attr":
+        # a `[script(...)]` recipe: the interpreter is started by another code path than a shebang line's
+        target = attrs + "[script('%s')]\nt:\n  %s\n\ntop: t\n" % (C.VSH, line)
+    elif c["script"]:
         target = attrs + "t:\n  #!%s\n  %s\n\ntop: t\n" % (C.VSH, line)
     else:
         target = attrs + "t:\n  %s\n\ntop: t\n" % line
     dummy = "dummy_%s:\n  [D]\n"
+    unstable = "set unstable\n" if c["script"] == "attr" else ""
     texts = {
-        "root": shell + setting_text(c["set_root"]) + "import 'imp/i.just'\nmod sub 'mods/sub.just'\nbt := `[Bmod-root]`\n\n",
+        "root": shell + unstable + setting_text(c["set_root"]) + "import 'imp/i.just'\nmod sub 'mods/sub.just'\nbt := `[Bmod-root]`\n\n",
         "imp": "mod nested\n\n",
-        "sub": shell + setting_text(c["set_sub"]) + "import 'inner/ii.just'\nbtsub := `[Bmod-sub]`\n\n",
+        "sub": shell + unstable + setting_text(c["set_sub"]) + "import 'inner/ii.just'\nbtsub := `[Bmod-sub]`\n\n",
         "subimp": "\n",
-        "nested": shell + "\n",
+        "nested": shell + unstable + "\n",
     }
     for f in FILES:
         texts[f] += target if f == c["file"] else dummy % f
@@ -184,7 +188,7 @@ def run(report):
     cfgs, total = space(tier, report.seed)
     results = C.pmap(run_cfg, cfgs)
     model = drv.pbatch([r["req"] for r in results], chunk=2000)
-    stats = {"configurations": len(cfgs), "space": total, "by_file": {}, "no_cd": 0, "scripts": 0, "with_flags": 0}
+    stats = {"configurations": len(cfgs), "space": total, "by_file": {}, "no_cd": 0, "scripts": 0, "script_attribute": 0, "with_flags": 0}
     distinct = set()
     samples = []
     keys = ["recipe", "backtick", "rootBacktick", "invocation_directory", "justfile_directory", "source_directory"]
@@ -193,7 +197,8 @@ def run(report):
             raise C.BuildError("model driver: " + m["fatal"])
         stats["by_file"][c["file"]] = stats["by_file"].get(c["file"], 0) + 1
         stats["no_cd"] += c["nocd"]
-        stats["scripts"] += c["script"]
+        stats["scripts"] += bool(c["script"])
+        stats["script_attribute"] += c["script"] == "attr"
         stats["with_flags"] += c["flags"] != "none"
         strip = lambda p: p.replace(r["d"], "<D>") if isinstance(p, str) else p
         obs = {k: strip(r["obs"].get(k)) for k in keys}
@@ -219,7 +224,7 @@ def run(report):
     report.coverage.update({
         "evaluations": len(cfgs),
         "distinct_nontrivial": len(distinct),
-        "rule": "product of {file containing the recipe: root, import of root, submodule, import of the submodule, module declared in an imported file} x `set working-directory` in root and submodule {none, relative, absolute} x {no flags, --justfile, --justfile + --working-directory} x invocation directory {justfile dir, nested subdir, module dir, unrelated dir} x attribute {none, relative, absolute} x [no-cd] x {linewise, shebang} x {direct, via dependency}; %s; distinct = distinct (configuration, observed directories)" % ("complete" if tier == "thorough" else "random sample of the space (size in stats)"),
+        "rule": "product of {file containing the recipe: root, import of root, submodule, import of the submodule, module declared in an imported file} x `set working-directory` in root and submodule {none, relative, absolute} x {no flags, --justfile, --justfile + --working-directory} x invocation directory {justfile dir, nested subdir, module dir, unrelated dir} x attribute {none, relative, absolute} x [no-cd] x {linewise, shebang, [script]} x {direct, via dependency}; %s; distinct = distinct (configuration, observed directories)" % ("complete" if tier == "thorough" else "random sample of the space (size in stats)"),
         "samples": samples,
         "exhaustive": tier == "thorough",
         "traces_validated_against_impl": len(cfgs),
